@@ -394,6 +394,27 @@ def run(ctx):
                 ctx.violation("state-eq:unequal-contents-compare-equal[values-differ-by-a-hair]", {"values": [a_txt, b_txt], "route": route})
             elif same_text_value:
                 ctx.violation("state-serialize:unequal-states-serialise-to-the-same-value", {"values": [a_txt, b_txt], "route": route, "texts": [t1, t2]})
+    # zero is zero: a state holding -0.0 (written "-0", or reached by (assign (f b) (* (f a) -1)) from 0) equals the state holding 0
+    for route in ("problem", "trajectory"):
+        ctx.count("cases")
+        base = states[rng.randrange(len(states))]
+        try:
+            b_zero = Builder(rng)
+            b_zero.problem_text = lambda st, shuffle=True, _o=b_zero.problem_text: _o(st, shuffle).replace("(= (f b) 0)", "(= (f b) -0.0)")
+            o_pos = b.build((base[0], {**base[1], ("f", "b"): Fraction(0)}), route)
+            if route == "problem":
+                o_neg = b_zero.build((base[0], {**base[1], ("f", "b"): Fraction(0)}), "problem")
+            else:
+                items = [list(a) for a in sorted(base[0])] + [["=", list(k), lib.frac_str(v)] for k, v in sorted(base[1].items()) if k != ("f", "b")] + [["=", ["f", "b"], "-0.0"]]
+                o_neg = b.tp.parse_state(items)
+            ctx.count("compared:eq")
+            ctx.count("compared:eq:expected-equal")
+            ctx.count("compared:negative-zero")
+            if not (o_pos == o_neg and o_neg == o_pos):
+                ctx.violation("state-eq:equal-contents-compare-unequal[0.0-and--0.0]", {"state": model.show_state(base), "route": route,
+                                                                                       "texts": [o_pos.serialize(), o_neg.serialize()]})
+        except BaseException as e:
+            ctx.violation("state-near-values:raises", {"values": ["0", "-0.0"], "route": route, "observed": lib.exc_name(e)})
     # random larger states incl. ternary fluents (repeated-argument finding lives here)
     for k in range(400 if thorough else 40):
         ctx.count("cases")
